@@ -21,7 +21,7 @@ int fft_cache_capacity();
 namespace vf {
 namespace {
 
-// ops (args):  fft n ds | rfft n ds | ifft n ds | irfft n ds | fftn m n ds | xcorr n1 n2 ds | hilbert n ds | fftfilt hlen n ds
+// ops (args):  fft n ds | rfft n ds | ifft n ds | irfft n ds | fftn m n ds | xcorr n1 n2 ds | hilbert n ds | fftfilt hlen n ds | czt n m aidx ds
 //              mkplan slot kind n m | useplan slot ds | drop slot
 constexpr int NSLOTS = 4;
 enum { PK_FFT = 0, PK_FFTR, PK_IFFT, PK_IFFTR, PK_CZT, PK_N };
@@ -202,6 +202,9 @@ bool op_valid(const Op& op) {
     if (op.kind == "fftn" || op.kind == "xcorr" || op.kind == "fftfilt") {
         return op.a.size() >= 3 && sz(0) && sz(1);
     }
+    if (op.kind == "czt") {
+        return op.a.size() >= 4 && sz(0) && op.iarg(0) <= 4096 && sz(1) && op.iarg(1) <= 4096 && op.iarg(2) >= 0 && op.iarg(2) <= 3;
+    }
     if (op.kind == "mkplan") {
         const int64_t kind = op.iarg(1);
         if (op.a.size() < 4 || op.iarg(0) < 0 || op.iarg(0) >= NSLOTS || kind < 0 || kind >= PK_N || !sz(2)) {
@@ -242,6 +245,11 @@ std::vector<double> do_request(const Op& op) {
         append(out, dsplib::fft(cdata(uint32_t(op.iarg(2)), n), int(op.iarg(1))));
     } else if (op.kind == "xcorr") {
         append(out, dsplib::xcorr(rdata(uint32_t(op.iarg(2)), n), rdata(uint32_t(op.iarg(2)) + 1, int(op.iarg(1)))));
+    } else if (op.kind == "czt") {
+        // czt(x, m, w, a): w on the unit circle; a = 1 or a point off the default (anything keyed without `a` would alias)
+        const int m = int(op.iarg(1));
+        static const cmplx_t avals[4] = {{1, 0}, {0.9, 0.1}, {1.2, -0.3}, {0, 1}};
+        append(out, dsplib::czt(cdata(uint32_t(op.iarg(3)), n), m, dsplib::expj(-2 * dsplib::pi / m), avals[op.iarg(2)]));
     } else if (op.kind == "fftfilt") {
         dsplib::FftFilter f(rand_coeffs(uint32_t(op.iarg(2)), n));
         append(out, f.process(rdata(uint32_t(op.iarg(2)), int(op.iarg(1)))));
@@ -325,6 +333,11 @@ Plan gen(uint64_t seed, const std::string& tier) {
             } else {
                 op.a = {double(std::max(n, 2)), ds};
             }
+        } else if (c == 14 && r.chance(0.5)) {
+            // the m = n, w = exp(-2 pi i / n) form is the one the prime-length FFT plans use internally
+            op.kind = "czt";
+            const int nn = std::min(n, 1100);
+            op.a = {double(nn), double(r.chance(0.7) ? nn : std::min(r.pick(alpha), 1100)), double(r.below(4)), ds};
         } else if (c == 14) {
             op.kind = "fftfilt";
             op.a = {double(std::min(std::max(n, 2), 300)), double(r.range(1, 1500)), ds};
